@@ -19,6 +19,7 @@ import (
 	"os"
 	"strconv"
 	"strings"
+	"sync"
 
 	"rare/pkg/expressions"
 	"rare/pkg/expressions/funclib"
@@ -28,7 +29,7 @@ import (
 )
 
 func main() {
-	vh.Main(vh.Commands{"replay": c19Replay, "trace": c19Trace, "eval": c19Eval})
+	vh.Main(vh.Commands{"replay": c19Replay, "trace": c19Trace, "eval": c19Eval, "fold": c19Fold})
 }
 
 type M = vh.M
@@ -61,6 +62,7 @@ type outcome struct {
 	Sg int    `json:"sg"`
 	Ex int    `json:"ex"`
 	Mt int64  `json:"mt"`
+	X  string `json:"x"` // the exact result: the text `{! ..}` printed, or the float64 in shortest round-trip form
 	v  float64
 	m  string // panic / error text
 }
@@ -125,7 +127,9 @@ func compileStd(text string) compiled {
 			if w := e.Eval(ctx); w != v && !(math.IsNaN(v) && math.IsNaN(w)) {
 				return outcome{C: "panic", m: fmt.Sprintf("second evaluation differs: %v then %v", v, w)}
 			}
-			return classify(v)
+			o := classify(v)
+			o.X = strconv.FormatFloat(v, 'g', -1, 64)
+			return o
 		})
 	}
 }
@@ -149,7 +153,8 @@ func compileKBT(template string) compiled {
 	}
 	return func(vals []float64) outcome {
 		return guard(func() outcome {
-			ctx := &expressions.KeyBuilderContextArray{Elements: make([]string, len(vals)), Keys: map[string]string{}}
+			// (src and line never change: what a result may NOT be keyed on)
+			ctx := &expressions.KeyBuilderContextArray{Elements: make([]string, len(vals)), Keys: map[string]string{"src": "a.log", "line": "7"}}
 			for i, v := range vals {
 				s := strconv.FormatFloat(v, 'g', -1, 64)
 				ctx.Elements[i] = s
@@ -161,11 +166,26 @@ func compileKBT(template string) compiled {
 			}
 			v, perr := strconv.ParseFloat(out, 64)
 			if perr != nil {
-				return outcome{C: "text", m: out}
+				return outcome{C: "text", m: out, X: out}
 			}
-			return classify(v)
+			o := classify(v)
+			o.X = out
+			return o
 		})
 	}
+}
+
+// fmtG: FormatFloat(v, 'g', -1, 64) with a small cache (the same bindings are used over and over)
+var fmtGCache sync.Map
+
+func fmtG(v float64) string {
+	k := math.Float64bits(v)
+	if s, ok := fmtGCache.Load(k); ok {
+		return s.(string)
+	}
+	s := strconv.FormatFloat(v, 'g', -1, 64)
+	fmtGCache.Store(k, s)
+	return s
 }
 
 type engine struct {
@@ -539,7 +559,7 @@ func c19Trace(args []string) error {
 			for j := 0; j < 4; j++ {
 				switch r.Intn(6) {
 				case 0:
-					f := fracLits[r.Intn(5)]
+					f := fracLits[r.Intn(len(fracLits))] // (0.1 included: not exactly representable)
 					lb[j] = float64(f.n) / float64(f.d)
 					spell[j] = []string{f.s}
 				case 1:
